@@ -43,6 +43,8 @@ package core
 
 //@ func (*sorter).Iterate
 //@   modifies *
+//@   capture sortCall Int = result 0 of call sort.Sort
+//@   at call dyn:onRow assert sorted_before_emit: captured(sortCall)
 //@   capture srcErr Iface = result 1 of call FlatRowSource.Iterate
 //@   capture timedOut Bool = result 0 of call TimeoutGuard.TimedOut
 //@   ensures src_err: srcErr != nil ==> result1 != nil
@@ -150,3 +152,10 @@ package core
 //@   pureheap
 //@   ensures requested_asof_kept: u - want >= r ==> abs(result) == want
 //@   ensures at_least_one_period: u - want < r ==> abs(result) == u - r
+
+// C13: a grouped query reports a failure of its source scan: whatever the walk over the (partial) groups returns, an
+// error that ended the scan - other than the deadline, which is reported too - comes back from Iterate.
+//@ func (*group).Iterate
+//@   modifies *
+//@   capture srcErr Iface = result 1 of call RowSource.Iterate
+//@   ensures src_err: captured(srcErr) && srcErr != nil ==> result1 != nil
